@@ -13,7 +13,8 @@ import solve_oracles as so
 
 MODULE = "DfolsVerif.Properties.C03"
 BUILD_TARGETS = ss.ACCEPT_TARGETS
-THEOREMS = ["Dfols.C03.C03_label", "Dfols.C03.C03_candidate_truthful", "Dfols.C03.booksites_eq"]
+THEOREMS = ["Dfols.C03.C03_label", "Dfols.C03.C03_candidate_truthful", "Dfols.C03.booksites_eq",
+            "Dfols.C03.C03_src_points_labelled", "Dfols.C03.C03_src_samples", "Dfols.C03.C03_src_saves"]
 TRUSTED_EXTRA = [
     "model = event lists accepted by BookAcc.step (hand-written mirror of the call sites of change_point/add_new_point/add_new_sample/save_point/get_final_results, the x0 exit, restarted runs and the hard-restart merge)",
     "that soln.x is the argument and soln.resid the mean of the evaluations named by the acceptor's candidate is compared on real runs (floats), not proved",
@@ -23,6 +24,8 @@ import gen_booksites
 
 def pre_build(ctx):
     gen_booksites.regenerate(ctx)
+    import gen_bookcalls
+    ctx.cov["book_keeping_calls_in_repo"] = gen_bookcalls.regenerate(ctx)
 
 
 ALLOW = ("bounds", "scaling", "proj", "avg", "soft", "hard", "npt", "growing", "regression", "noise", "diag", "randinit", "parallel", "regu")
